@@ -71,6 +71,8 @@ func evalRead(s *Stores, tx *bbolt.Tx, op Op) (string, error) {
 		var err error
 		if op.N == 5 {
 			ids, cnt, err = store.QueryIdsC(tx, s.sharedQ[op.S]) // the same parsed query object in every reader
+		} else if op.N == 6 {
+			ids, cnt, err = s.Staff.QueryIdsC(tx, s.sharedQ["staff/level"])
 		} else {
 			ids, cnt, err = store.QueryIds(tx, queryText(op))
 		}
@@ -256,6 +258,14 @@ func modelRead(m *Model, op Op) string {
 				}
 			}
 			return fmt.Sprintf("%s#%d", strings.Join(ids, ","), len(ids))
+		case 6:
+			var ids []string
+			for _, id := range peopleIn(StStaff) {
+				if m.People[id].Level >= 1 {
+					ids = append(ids, id)
+				}
+			}
+			return fmt.Sprintf("%s#%d", strings.Join(ids, ","), len(ids))
 		}
 		return fmt.Sprintf("%s#%d", strings.Join(listed, ","), len(listed))
 	case "iterate":
@@ -396,7 +406,7 @@ func (g *gen) genReads(n int) []Op {
 			if g.cfg.Profile == "conc" {
 				// plus two composite-symbol shapes the existing suite pins (linked set . field, fk . field): every
 				// evaluation builds the symbol chain anew, which is where shared evaluation state would show
-				op.N = g.r.IntN(6) // 5: the run's shared pre-parsed query
+				op.N = g.r.IntN(7) // 5, 6: the run's shared pre-parsed queries
 			}
 			switch op.N {
 			case 1, 3:
